@@ -132,6 +132,7 @@ func checkC15(p *core.Program, r *core.Report) {
 	r.Rule("O15.5", "no integer division in the load chain whose divisor can be zero (empty file ⇒ panic)")
 	r.Rule("O15.7", "a section reader of the load chain performs the same reads before every success return (no early success under a flag)")
 	r.Rule("O15.8", "every stream decoder of the proving system that non-decoder code enters has stored every field the writers write before any return that may be a success (a keys-only loader accepts files cut in the sections it skips)")
+	r.Rule("O15.9", "every CLI command that takes a keys file (--keys-file; --input of convert-to-raw) obtains its system from a loader of the load chain")
 	r.Rule("O15.6", "the load chain reads no package-level variable that non-initialiser code writes (a reused buffer completes a truncated file with the tail of an earlier load)")
 	r.Rule("O15.3", "callers of a loader do not use the returned system before the error is ruled out and return the error")
 	r.Trusted = append(r.Trusted, "go/types, go/cfg construction", "gnark section decoders report truncation as an error", "io.ReadFull returns an error on short reads")
@@ -188,6 +189,8 @@ func checkC15(p *core.Program, r *core.Report) {
 	checkReaderCompleteness(p, r, li.chain)
 	// O15.8: every decoder that stands for "the file was read" reads every section
 	checkDecoderCoverage(p, r, li.ps)
+	// O15.9: the commands that are given a keys file read it through the load chain
+	checkCommandsUseLoader(p, r, li)
 	// O15.3 callers
 	inChain := map[ast.Node]bool{}
 	for _, u := range li.chain {
@@ -211,9 +214,21 @@ func checkC15(p *core.Program, r *core.Report) {
 			continue
 		}
 		seenUnit[u.Node] = true
+		uinfo := u.Pkg.TypesInfo
 		sel := func(call *ast.CallExpr, callee types.Object) bool {
-			if fn, ok := callee.(*types.Func); ok {
-				return loaderObjs[fn.Origin()]
+			if fn, ok := callee.(*types.Func); ok && loaderObjs[fn.Origin()] {
+				return true
+			}
+			// a loader handed over as a function value (load func() (*ProvingSystem, error)): the call through it is a
+			// loader call site like any other
+			if _, isFn := callee.(*types.Func); !isFn {
+				if tv, ok := uinfo.Types[call]; ok {
+					if tup, ok := tv.Type.(*types.Tuple); ok && tup.Len() == 2 && namedOf(tup.At(0).Type()) == li.ps && isErrorType(tup.At(1).Type()) {
+						if _, isPtr := tup.At(0).Type().(*types.Pointer); isPtr {
+							return true
+						}
+					}
+				}
 			}
 			return false
 		}
@@ -234,6 +249,7 @@ func checkC15(p *core.Program, r *core.Report) {
 	r.Floor("reader-chain fallible calls", 5)
 	r.Floor("loader fallible calls", 2)
 	r.Floor("loader call sites", 1)
+	r.Floor("commands taking a keys file", 3)
 }
 
 // nestedLits returns all function literals nested (at any depth) in u, each as its own unit, excluding cli actions
